@@ -8,7 +8,7 @@ from crosshair.tracers import NoTracing
 from tartiflette import create_engine, Directive, Scalar, Resolver
 
 META = {
-    "bounds": "catalogue of 111 rule-breaking SDL texts (every rule of the statement at several sites: field / argument / input field / wrapped / via extend / in a second file) "
+    "bounds": "catalogue of 116 rule-breaking SDL texts (every rule of the statement at several sites: field / argument / input field / wrapped / via extend / in a second file) "
               "+ generators over wrapper bits for interface conformance (field type 8x8 wrappings x 4 base-type pairs, argument type 8x8, extra argument nullability/default)",
     "outside": "SDL outside the catalogue/generators; engine builds run concretely (create_engine under tracing costs ~40 s because of the lark parse: the selectors are "
                "resolved by branching, then the build runs untraced on concrete text — the solver contributes the exhaustive enumeration of the selector space only)",
@@ -104,6 +104,10 @@ CATALOGUE = [
     ("undefined root in an extension followed by a violating extension", OK_BASE + "extend schema { mutation: Nope } extend type Query { b: Undefined }"),
     ("violating extension after a directive-only extend schema", OK_BASE + "directive @d on SCHEMA extend schema @d extend type Query { b: [Undefined!]! }"),
     ("violating extension after a valid extend schema", OK_BASE + "type M { x: Int } extend schema { mutation: M } extend type M { y: Undefined }"),
+    # argument faults on a field of an interface that no object implements (nothing on the object side can report them)
+    ("undefined argument type on an unimplemented interface", OK_BASE + "interface Lone { f(by: Missing): Int }"), ("non-input argument type (object) on an unimplemented interface", OK_BASE + "type T { x: Int } interface Lone { f(by: T): Int }"),
+    ("non-input argument type (list of interface) on an unimplemented interface", OK_BASE + "interface Lone { f(again: [Lone]): Int }"), ("undefined argument type in an extension of an unimplemented interface", OK_BASE + "interface Lone { x: Int } extend interface Lone { g(by: [Missing!]): Int }"),
+    ("undefined field type on an unimplemented interface", OK_BASE + "interface Lone { f: Missing }"),
     # empty / self / duplicates
     ("object without fields", OK_BASE + "type Empty"), ("interface-implementing object without fields", OK_BASE + "interface I { x: Int } type Empty implements I"),
     ("union containing itself", OK_BASE + "type A { x: Int } union U = A | U"), ("union containing only itself", OK_BASE + "union U = U"),
